@@ -1116,7 +1116,16 @@ class Models:
 
         # ---- errors helper
         if name == "secondary_errors_since":
-            return [(st, ("sym", ("secondary_since", term_of(dv[1]) if len(dv) > 1 else ("?",))))]
+            # which emissions the returned tail covers: the sites that may have emitted since the checkpoint whose err_count is
+            # passed (i.errs - checkpoint.errs).  `secondary_errors_since(before.err_count)` with `before` saved one stage too
+            # early widens the tail (seed C08-13: the retry filter of skip_then_retry_until counting the skip parser's emissions).
+            tail = None
+            if len(dv) > 1 and isinstance(dv[1], tuple) and dv[1][0] == "errcount" and isinstance(dv[1][1], frozenset):
+                for v in dv:
+                    if isinstance(v, tuple) and v[0] in ("errors", "inp") and isinstance(v[1], int) and v[1] < len(st.inps):
+                        tail = ("tail", ",".join(sorted(set(str(x[0]) for x in st.inps[v[1]].errs - dv[1][1]))) or "none")
+                        break
+            return [(st, ("sym", ("secondary_since", tail if tail is not None else (term_of(dv[1]) if len(dv) > 1 else ("?",)))))]
 
         return self.unknown(fr, f, vals, dv, argtys, dest_ty, line)
 
